@@ -70,14 +70,40 @@ def o_map(ev, st, t, site):
     return seqmodel._set_dest(st, t, ("mapped", it, clo))
 
 
+def o_duration_div(ev, st, t, site):
+    a, b = seqmodel._deref(st, seqmodel._arg(ev, st, t, 0)), seqmodel._deref(st, seqmodel._arg(ev, st, t, 1))
+    from core import _as_int
+    n = _as_int(b)
+    if a is None or a[0] != "const" or n is None or n == 0:
+        return False     # a division by zero panics: not a path of the model
+    return seqmodel._set_dest(st, t, ("const", "%s/%d" % (a[1], n)))
+
+
 EXTRA_RAW = [
-    (r"collections::VecDeque.*::new$|collections::VecDeque.*::with_capacity$", o_vecdeque_new),
+    (r"Duration as .*Div.*::div$|Duration.*::div$|Duration::div_f(32|64)$|Duration::checked_div$", o_duration_div),
+    (r"collections::VecDeque.*::new$|collections::VecDeque.*::with_capacity$|vec::Vec.*::(new|with_capacity)$", o_vecdeque_new),
     (r"iter::from_fn$|iter::sources::from_fn::from_fn$", o_from_fn),
     (r"Iterator.*::map$", o_map),
 ]
 
 
-def evaluate(facts, fams):
+def make_this(facts, timeout=("const", "T"), conc=("const", "CONC")):
+    """The TcpConnecting value `connect` runs on, built by the code's own constructor from (address list, &config)."""
+    cfg = facts.adt("client::conn::transport::tcp::TcpTransportConfig")
+    cf = {}
+    for i, fl in enumerate(cfg["variants"][0]["fields"]):
+        cf[i] = ("const", "CFG_" + fl["name"])
+        if fl["name"] == "happy_eyeballs_timeout":
+            cf[i] = seqmodel.NONE if timeout is None else seqmodel.some(timeout)
+        if fl["name"] == "happy_eyeballs_concurrency":
+            cf[i] = seqmodel.NONE if conc is None else seqmodel.some(conc)
+    cfgv = ("variant", "TcpTransportConfig", tuple(sorted(cf.items())))
+    new = facts.fn("client::conn::transport::tcp::TcpConnecting::new")
+    u = inline.inline(facts, new, 3, lambda ck, raw: "::_::" not in ck, expand=True)
+    return u, cfgv
+
+
+def evaluate(facts, fams, timeout=("const", "T"), conc=("const", "CONC"), observe_set=False):
     """Abstract run of the candidate loop for an address list with the given families.  Returns the list of outcomes, each a
     list of address tags in the order the attempts sit in the set's queue when the set is awaited (None = unknown)."""
     f = full_unit(facts, facts.fn(ANCHOR))
@@ -96,6 +122,15 @@ def evaluate(facts, fams):
         else:
             fields.append((i, ("const", "FIELD_" + n)))
     this = ("variant", "TcpConnecting", tuple(fields))
+    # prefer the value the constructor builds (a refactoring may compute fields there)
+    try:
+        nu, cfgv = make_this(facts, timeout, conc)
+        st0 = {1: ("variant", "SocketAddrs", ((0, ("seq", 1)),)), 2: ("refval", cfgv), -1: ("list", elems), -1000: ("const", "10")}
+        outs0 = {x for (x, _) in AbsPaths(nu, limit=4000, raw_oracles=seqmodel.RAW_ORACLES + EXTRA_RAW, oracles=[INT_CMP, VALUE_EQ]).outcomes(state=st0)}
+        if len(outs0) == 1 and next(iter(outs0)) is not None:
+            this = next(iter(outs0))
+    except Exception:
+        pass
     cap = facts._capture_index(facts.fn(ANCHOR), "cap:self")
     env = ("variant", "{coroutine}", ((cap if cap is not None else 0, this),))
     st = {1: env, -1: ("list", elems), -1000: ("const", "10")}
@@ -111,9 +146,56 @@ def evaluate(facts, fams):
                     _tags_in(e, tags)
                 out.append(tuple(tags))
         return tuple(out)
-    ap = AbsPaths(f, limit=20000, raw_oracles=seqmodel.RAW_ORACLES + EXTRA_RAW, oracles=[INT_CMP, VALUE_EQ])
-    outs = ap.outcomes(state=st, stop_blocks=set(fin), extra_keys=(queues, -1))
+    def the_set(st_):
+        # moved-from temporaries keep a stale copy: the pacing fields are set once at construction, every copy agrees on them
+        found = sorted({v for k, v in st_.items() if isinstance(k, int) and k > 0 and v is not None and v[0] == "variant" and v[1] == "EyeballSet"}, key=repr)
+        return found[-1] if found else None
+    ap = AbsPaths(f, limit=20000, raw_oracles=seqmodel.RAW_ORACLES + EXTRA_RAW + seqmodel.OPTION_ORACLES, oracles=[INT_CMP, VALUE_EQ])
+    outs = ap.outcomes(state=st, stop_blocks=set(fin), extra_keys=(queues, -1) + ((the_set,) if observe_set else ()))
     return outs
+
+
+def delay_table(ctx, facts, label="TcpConnecting::connect"):
+    """The pacing parameters the attempt set is started with: stagger delay = overall timeout / number of addresses (the
+    timeout itself for an empty list, none without a timeout), the overall timeout undivided, the configured concurrency."""
+    adt = facts.adt("happy_eyeballs::EyeballSet")
+    names = {fl["name"]: i for i, fl in enumerate(adt["variants"][0]["fields"])}
+    need = [n for n in ("delay", "timeout", "initial_concurrency") if n not in names]
+    if need:
+        return ctx.missing("%s|set-fields" % label, "EyeballSet has no field(s) %s" % need)
+    rows = 0
+    for timeout in (None, ("const", "T")):
+        for n in (0, 1, 3):
+            key = "%s|delay-table|timeout=%s|addresses=%d" % (label, "none" if timeout is None else "T", n)
+            try:
+                outs = evaluate(facts, ("V4",) * n, timeout=timeout, observe_set=True)
+            except AbsPaths.Undecided as e:
+                ctx.undecided(key, str(e))
+                continue
+            rows += 1
+            got = set()
+            for o in outs:
+                sv = o[2][2]
+                f_ = dict(sv[2]) if sv is not None else {}
+                got.add(tuple(_show(f_.get(names[x])) for x in ("delay", "timeout", "initial_concurrency")))
+            d = "None" if timeout is None else ("Some(T)" if n == 0 else "Some(T/%d)" % n)
+            want = {(d, "None" if timeout is None else "Some(T)", "Some(CONC)")}
+            ctx.check(got == want, key, "overall timeout %s, %d addresses: the set starts with (stagger delay, overall timeout, concurrency) = %s" % ("none" if timeout is None else "T", n, next(iter(want))),
+                      "overall timeout %s, %d addresses: the set starts with %s, expected %s" % ("none" if timeout is None else "T", n, sorted(got), next(iter(want))))
+    ctx.floor("%s|delay-table-rows" % label, rows, 6, "scenarios evaluated")
+
+
+def _show(v):
+    if v is None:
+        return "?"
+    if v[0] == "const":
+        return str(v[1])
+    if v[0] == "refval":
+        return _show(v[1])
+    if v[0] == "variant":
+        inner = ",".join(_show(x) for _, x in v[2])
+        return "%s(%s)" % (v[1], inner) if inner else str(v[1])
+    return str(v)
 
 
 def table(ctx, facts, label="TcpConnecting::connect"):
